@@ -5,6 +5,7 @@ import scipy.interpolate as interp
 from ...hilbertspace.hamiltonian import Hamiltonian
 from ...liouvillespace.systembathinteraction import SystemBathInteraction
 from ...corfunctions.correlationfunctions import c2g
+from ....core.managers import energy_units
 
 class FoersterRateMatrix:
     """Förster relaxation rate matrix
@@ -55,6 +56,13 @@ class FoersterRateMatrix:
             
     
     def initialize(self):
+        
+        # everything below works with values in internal units
+        with energy_units("int"):
+            self._initialize_int()
+            
+            
+    def _initialize_int(self):
 
         HH = self.ham.data
         Na = self.ham.dim
